@@ -47,12 +47,48 @@ def harness_params(f):
     return [(a.arg, ast.unparse(a.annotation) if a.annotation is not None else None) for a in f.node.args.args]
 
 
+def _die_with_parent():
+    """pool workers must not outlive a killed / timed-out check (they would keep all cores busy)"""
+    try:
+        import ctypes, signal
+        ctypes.CDLL("libc.so.6").prctl(1, signal.SIGKILL)       # PR_SET_PDEATHSIG
+    except Exception:
+        pass
+
+
+FALLBACK_BOUND = {"quick": 3, "thorough": 6}
+
+
+def _needs_fallback(out):
+    """a loop that carries a loop contract was edited / moved (or a new symbolic loop appeared): the invariant no longer
+    applies.  Instead of giving up, the harness is explored again with such loops unrolled up to a stated bound; its
+    obligations are then reported as BOUNDED (never counted as proved)."""
+    err = out.get("error")
+    if err and err[0] == "unsupported" and "needs an invariant" in err[1]:
+        return True
+    return any("[TENTATIVE:" in (f.get("detail") or "") for f in out.get("failures", []))
+
+
 def _worker(job):
+    out = _worker1(job, None)
+    if _needs_fallback(out):
+        bound = FALLBACK_BOUND.get(job[2], 3)
+        out2 = _worker1(job, bound)
+        if out2.get("stale_loops") and not (out2.get("error") and out2["error"][0] in ("unsupported", "crash")):
+            out2["bounded"] = "FALL-BACK: loop(s) %s have no usable loop contract (edited or moved code); explored for at most %d iterations each" % (
+                ", ".join(out2["stale_loops"]), bound)
+            out2["fallback_from"] = (out.get("error") or ("tentative", "CONTRACT-MISMATCH"))[1][:300]
+            return out2
+    return out
+
+
+def _worker1(job, loop_bound):
     prop, hname, tier, budget, case_idx = job[:5]
     cases_fn = job[5] if len(job) > 5 else None
     t0 = time.time()
     try:
         I, reg = build(prop)
+        I.loop_bound = loop_bound
         h = reg.harnesses[hname]
         case = driver.MISSING
         label = hname
@@ -62,12 +98,13 @@ def _worker(job):
             case = getattr(tables, cases_fn)(REPO)[case_idx]
             label = "%s[%s]" % (hname, case.get("id", case_idx))
         summaries = {}
+        hmod = h["func"].module.name
         for sname in h["uses"]:
-            s = reg.summaries[sname]
+            s = reg.lookup("summary", sname, hmod)
             summaries[s["target"]] = s["func"]
         loops = {}
         for lname in h["loops"]:
-            lc = reg.loop_contracts[lname]
+            lc = reg.lookup("loop_contract", lname, hmod)
             cls = lc["cls"]
             loops[(lc["target"], lc["ordinal"])] = (lc["header"], I.getattr_(cls, "havoc"), I.getattr_(cls, "inv"))
         pt = int((h["timeout"] or budget) * 1000)
@@ -90,7 +127,7 @@ def _worker(job):
             "reached": sorted(k for k in res.reached if k.startswith("geckolib")),
             "samples": res.samples, "witnesses": res.witnesses,
             "hashes": {k: driver.func_source_hash(I, k) for k in sorted(res.reached) if k.startswith("geckolib")},
-            "module_file": h["func"].module.name,
+            "module_file": h["func"].module.name, "stale_loops": sorted(I.stale_loops),
             "sidecars": ["contracts." + os.path.splitext(os.path.basename(f))[0] for f in sidecar_files(prop)],
         }
         return out
@@ -181,7 +218,7 @@ def run_property(prop, spec, args):
     results = []
     if jobs:
         if args.j > 1 and len(jobs) > 1:
-            with mp.get_context("fork").Pool(min(args.j, len(jobs))) as pool:
+            with mp.get_context("fork").Pool(min(args.j, len(jobs)), initializer=_die_with_parent) as pool:
                 for r in pool.imap_unordered(_worker, jobs):
                     results.append(r)
                     if args.v:
@@ -407,6 +444,9 @@ def report(prop, spec, args, seed, results, extra, t0):
             faults.append("self-test: engine and CPython disagree on %s" % mm)
     wall = time.time() - t0
     status = 0
+    for r in results:
+        if r.get("fallback_from"):
+            print("BOUNDED-FALL-BACK %s: %s (was: %s)" % (r["harness"], r["bounded"], r["fallback_from"].splitlines()[0][:160]))
     for kid in sorted(set(known_lines)):
         k = [x for x in known if x["id"] == kid]
         print("KNOWN-FINDING: property=%s %s" % (prop, (k[0]["what"] if k else kid)))
